@@ -50,6 +50,14 @@ def z3_versions():
     return [f"z3 {z3.get_version_string()} (python API)", cv]
 
 
+class StubObligation:
+    """an obligation generated in a worker process: only its SMT text travelled; terms are re-generated on demand (Run.ob)"""
+
+    def __init__(self, oid, local_id, kind, func, line, entry, case):
+        self.id, self.local_id, self.kind, self.func, self.line, self.entry, self.case = oid, local_id, kind, func, line, entry, case
+        self.hyps, self.goal, self.inputs, self.meta = [], None, None, {"case": case}
+
+
 class Run:
     def __init__(self, pid, tier, seed, args, t0):
         self.pid, self.tier, self.seed, self.args, self.t0 = pid, tier, seed, args, t0
@@ -77,11 +85,130 @@ class Run:
         hints = self.world.hints_for(o.hyps + [o.goal])
         self.tasks.append((o.id, solve.to_smt2(o.hyps, o.goal, hints, expect=expect), expect))
 
+    # ---------------------------------------------------------------- parallel generation (many small cases)
+    def ob(self, oid):
+        """the real Obligation behind an id: obligations generated in a worker process arrive as SMT text only and are
+        re-generated here (deterministically, from the same source) when their terms are needed - replay, region checks"""
+        o = self.obls[oid]
+        if not isinstance(o, StubObligation):
+            return o
+        rep = verify.verify_case(self.world, o.entry, o.case)
+        if rep.error:
+            raise RuntimeError(f"cannot re-generate {oid}: {rep.error}")
+        by_id = {}
+        for real in rep.obligations:
+            k = real.id
+            n = 2
+            while k in by_id:
+                k = f"{real.id}~{n}"
+                n += 1
+            by_id[k] = real
+        for sid, so in list(self.obls.items()):
+            if isinstance(so, StubObligation) and so.entry is o.entry and so.case is o.case and so.local_id in by_id:
+                real = by_id[so.local_id]
+                real.id = sid
+                real.kind = so.kind
+                self.obls[sid] = real
+        if isinstance(self.obls[oid], StubObligation):
+            raise RuntimeError(f"re-generation of {oid} did not reproduce the obligation (non-deterministic generation)")
+        return self.obls[oid]
+
+    def _gen_parallel(self, entry, cases, workers):
+        import multiprocessing as mp
+
+        ctx = mp.get_context("fork")
+        chunks = [list(range(i, len(cases), workers)) for i in range(workers)]
+
+        def child(idx, conn):
+            out = []
+            try:
+                for i in idx:
+                    case = cases[i]
+                    rep = verify.verify_case(self.world, entry, case)
+                    seen = {}
+                    obls = []
+                    for o in rep.obligations:
+                        k = o.id
+                        n = 2
+                        while k in seen:
+                            k = f"{o.id}~{n}"
+                            n += 1
+                        seen[k] = 1
+                        hints = self.world.hints_for(o.hyps + [o.goal])
+                        obls.append((k, o.kind, o.func, o.line, solve.to_smt2(o.hyps, o.goal, hints)))
+                    covers = []
+                    for cid, pc in rep.covers:
+                        covers.append((cid, solve.to_smt2(pc, z3.BoolVal(True), self.world.hints_for(pc + [z3.BoolVal(True)]), expect="sat")))
+                    out.append((i, dict(file=rep.file, first=rep.first, last=rep.last, sha=rep.sha, paths=rep.paths, dead=[(None, l, a) for _, l, a in rep.dead],
+                                        error=rep.error, secs=rep.secs, assumed=set(rep.assumed), transparent=set(rep.transparent),
+                                        contracts_used=set(rep.contracts_used)), obls, covers))
+                conn.send(("ok", out))
+            except BaseException as e:  # noqa: BLE001
+                conn.send(("error", f"{type(e).__name__}: {e}"))
+            finally:
+                conn.close()
+                os._exit(0)
+
+        procs = []
+        for idx in chunks:
+            if not idx:
+                continue
+            pc, cc = ctx.Pipe(duplex=False)
+            pr = ctx.Process(target=child, args=(idx, cc), daemon=True)
+            pr.start()
+            cc.close()
+            procs.append((pr, pc))
+        results = {}
+        for pr, pc in procs:
+            try:
+                status, payload = pc.recv()
+            except EOFError:
+                status, payload = "error", "worker died"
+            pr.join(timeout=5)
+            if status != "ok":
+                return None, payload
+            for i, meta, obls, covers in payload:
+                results[i] = (meta, obls, covers)
+        return results, None
+
     def gen_function(self, qualname, entry=None, canary=None):
         entry = entry or REGISTRY.get(qualname)
         if entry is None:
             self.errors.append(f"no contract registered for {qualname}")
             return
+        todo = [c for c in entry.cases if c.has_args() and not (c.options().get("tier") == "thorough" and self.tier != "thorough")]
+        workers = min(12, os.cpu_count() or 1)
+        if not canary and len(todo) >= 48 and workers > 1 and not os.environ.get("PYVC_SERIAL"):
+            results, err = self._gen_parallel(entry, todo, workers)
+            if results is not None:
+                for i, case in enumerate(todo):
+                    meta, obls, covers = results[i]
+                    rep = verify.FunctionReport(entry.qualname, case.name)
+                    for k, v in meta.items():
+                        setattr(rep, k, v)
+                    rep.obligations = [None] * len(obls)
+                    self.reports.append(rep)
+                    if rep.error:
+                        self.undecided.append(f"{qualname}[{case.name}]: {rep.error}")
+                        continue
+                    for local_id, kind, func, line, smt in obls:
+                        oid = local_id
+                        n = 2
+                        while oid in self.obls:
+                            oid = f"{local_id}~~{n}"
+                            n += 1
+                        self.obls[oid] = StubObligation(oid, local_id, kind, func, line, entry, case)
+                        self.tasks.append((oid, smt, "unsat"))
+                    for cid, smt in covers:
+                        oid = cid
+                        n = 2
+                        while oid in self.obls:
+                            oid = f"{cid}~~{n}"
+                            n += 1
+                        self.obls[oid] = StubObligation(oid, cid, "cover", qualname, None, entry, case)
+                        self.tasks.append((oid, smt, "sat"))
+                return
+            self.notes.append(f"parallel generation of {qualname} failed ({err}); generated serially")
         for case in entry.cases:
             if not case.has_args():
                 continue
@@ -207,7 +334,7 @@ def run_property(pid, tier, seed, args, t0):
             # replay counterexamples natively until one confirms: the real code must disagree with the falsified clause
             confirmed = None
             for h_ in hit[:6]:
-                rp = replay_obligation(run, run.obls[h_], run.results[h_], P, write=False)
+                rp = replay_obligation(run, run.ob(h_), run.results[h_], P, write=False)
                 if rp.get("confirmed"):
                     confirmed = True
                     break
@@ -226,7 +353,7 @@ def run_property(pid, tier, seed, args, t0):
     region_tasks = []
     cand = {}
     for oid in refuted:
-        o = run.obls[oid]
+        o = run.ob(oid)
         for f in findings:
             if f.get("kind", "obligation") == "obligation" and re.search(f["match"], oid):
                 region = resolve_ref(f["region"])
@@ -243,7 +370,7 @@ def run_property(pid, tier, seed, args, t0):
     rres = solve.discharge(region_tasks, timeout_ms=int(os.environ.get("PYVC_TIMEOUT_MS", "90000" if tier == "quick" else "300000")),
                            seed=seed % 1000) if region_tasks else {}
     for oid in refuted:
-        o = run.obls[oid]
+        o = run.ob(oid)
         res = run.results[oid]
         matched = None
         open_ = False
@@ -470,7 +597,7 @@ def write_evidence(run, P, proof_obls, discharged, backends, solver_s, covers, v
         transparent_used |= r.transparent
     samples = []
     for oid in proof_obls[:: max(1, len(proof_obls) // 4)][:4]:
-        o = run.obls[oid]
+        o = run.ob(oid)
         r = run.results[oid]
         samples.append(dict(obligation=oid, status=r.status, backend=r.backend, secs=round(r.secs, 3),
                             goal=(o.goal.sexpr()[:400] if is_sym(o.goal) else str(o.goal)), hypotheses=len(o.hyps)))
